@@ -3,6 +3,7 @@ package verifrt
 import (
 	"fmt"
 	"sync"
+	"sync/atomic"
 )
 
 // Cooperative replacements for sync.Mutex / sync.RWMutex / sync.Once, used only
@@ -45,8 +46,56 @@ var readLocks = map[int]int{}
 // monitors only while this is > 0.
 func LocksHeld() int { return lockDepth[taskID()] }
 
+// While helper goroutines of the library are alive (foreign != 0) nothing is
+// simulated; locks taken then are real locks.
+var (
+	realMu    sync.Mutex
+	realLocks = map[interface{}]*sync.RWMutex{}
+	realHeld  = map[interface{}]int{}
+)
+
+func realLock(m interface{}, read bool) {
+	realMu.Lock()
+	l := realLocks[m]
+	if l == nil {
+		l = new(sync.RWMutex)
+		realLocks[m] = l
+	}
+	realMu.Unlock()
+	if read {
+		l.RLock()
+	} else {
+		l.Lock()
+	}
+	realMu.Lock()
+	realHeld[m]++
+	realMu.Unlock()
+}
+
+// realUnlock releases m if it was taken as a real lock.
+func realUnlock(m interface{}, read bool) bool {
+	realMu.Lock()
+	if realHeld[m] == 0 {
+		realMu.Unlock()
+		return false
+	}
+	realHeld[m]--
+	l := realLocks[m]
+	realMu.Unlock()
+	if read {
+		l.RUnlock()
+	} else {
+		l.Unlock()
+	}
+	return true
+}
+
 // MutexLock replaces Lock/RLock.
 func MutexLock(m interface{}) {
+	if atomic.LoadInt32(&unsim) != 0 {
+		realLock(m, false)
+		return
+	}
 	syncPoint()
 	id := taskID()
 	for {
@@ -104,6 +153,10 @@ func (st *lockState) otherReader(id int) int {
 
 // RLock replaces (*sync.RWMutex).RLock: readers share the lock, a writer excludes them.
 func RLock(m interface{}) {
+	if atomic.LoadInt32(&unsim) != 0 {
+		realLock(m, true)
+		return
+	}
 	syncPoint()
 	id := taskID()
 	for {
@@ -130,6 +183,9 @@ func RLock(m interface{}) {
 
 // RUnlock replaces (*sync.RWMutex).RUnlock.
 func RUnlock(m interface{}) {
+	if realUnlock(m, true) {
+		return
+	}
 	id := taskID()
 	st := locks[m]
 	if st == nil || st.readers[id] == 0 {
@@ -156,6 +212,9 @@ func runHolder(holder, id int) {
 
 // MutexUnlock replaces Unlock.
 func MutexUnlock(m interface{}) {
+	if realUnlock(m, false) {
+		return
+	}
 	st := locks[m]
 	if st == nil || st.depth == 0 {
 		panic("sync: unlock of unlocked mutex")
